@@ -352,10 +352,72 @@ def rule_r3(F, rep):
     rep.floor(R, len(SLICE_LAYOUTS), 17, "slice layouts")
 
 
+VIS_TOKENS = {"Colon": (0, "Default"), "ColonColon": (0, "Hidden"), "ColonColonColon": (0, "ForceVisible"),
+              "PlusColon": (1, "Default"), "PlusColonColon": (1, "Hidden"), "PlusColonColonColon": (1, "ForceVisible")}
+
+
+def rule_r4(F, rep):
+    R = rep.rule("C15.R4", "the six field separators mean what the grammar says: `:` `::` `:::` give default / hidden / forced "
+                 "visibility, their `+` forms the same visibilities with inheritance (`f+: e` is `f: super.f + e`)")
+    VIS = [q for q in F.adts if q.endswith("ast::Visibility")][0]
+    for fname, plus_ok in (("eat_plus_visibility", True), ("eat_visibility", False)):
+        fn = F.fn("<%s>::%s" % (PARSER, fname))
+        rep.fn(fn)
+        for tok in F.variants(STK):
+            def hook(w, bb, t, env, args, tok=tok):
+                n = callee_name(t) or ""
+                if n == "<%s>::eat_simple" % PARSER:
+                    a = args[1]
+                    if isinstance(a, tuple) and a[0] == "var" and a[2] == tok and not env.get("#eaten"):
+                        env["#eaten"] = 1
+                        return ("var", OPTION, "Some")
+                    return ("var", OPTION, "None")
+                if n == "<%s>::eat_visibility" % PARSER:
+                    if tok in VIS_TOKENS and VIS_TOKENS[tok][0] == 0 and not env.get("#eaten"):
+                        env["#eaten"] = 1
+                        dst = w.norm(env, t["dst"])
+                        env["%s@Some.0" % dst] = ("var", VIS, VIS_TOKENS[tok][1])
+                        return ("var", OPTION, "Some")
+                    return ("var", OPTION, "None")
+                return None
+            w = kwalk.Walker(F, fn.body, call_result=hook, want_ret=True, ret_prefixes=("0",))
+            outs = w.run(0, {})
+            rep.states += w.states_explored
+            res = set()
+            for kind, marks, ret in outs:
+                if kind != "return":
+                    continue
+                d = dict(ret or ())
+                top = d.get("0")
+                if isinstance(top, tuple) and top[0] == "var" and top[2] == "None":
+                    res.add(None)
+                elif isinstance(top, tuple) and top[0] == "var" and top[2] == "Some":
+                    if plus_ok:
+                        pl = d.get("0@Some.0.0")
+                        vv = d.get("0@Some.0.1")
+                        res.add((pl, vv[2] if isinstance(vv, tuple) else "?"))
+                    else:
+                        vv = d.get("0@Some.0")
+                        res.add((0, vv[2] if isinstance(vv, tuple) else "?"))
+                else:
+                    res.add("?")
+            want = VIS_TOKENS.get(tok)
+            if want is not None and (plus_ok or want[0] == 0):
+                exp = {want}
+            else:
+                exp = {None}
+            ok = res == exp
+            rep.ob(R, "%s|%s" % (fname, tok), ok, {"token": tok, "result(plus, visibility)": sorted(map(str, res))} if tok in VIS_TOKENS else None)
+            if not ok:
+                rep.violation(R, "%s|%s" % (fname, tok), "%s on token %s yields %s; the grammar says %s (inherit, visibility)"
+                              % (fname, tok, sorted(map(str, res)), sorted(map(str, exp))), fn.loc)
+
+
 def run(F, rep, tier):
     rule_r1(F, rep)
     rule_r2(F, rep)
     rule_r3(F, rep)
+    rule_r4(F, rep)
     rep.assume("print/re-parse stability is not decided (no printer exists in the repository); node span containment "
                "is not decided")
     return EXPLANATION
